@@ -47,7 +47,8 @@ class C10(Prop):
             nst = rng.randint(3, 8)
             yield {'kind': 'forward', 'az': [rng.uniform(0, 360) for _ in range(nst)], 'toa': [rng.uniform(5, 175) for _ in range(nst)],
                    'pol': [rng.choice([-1, 1]) for _ in range(nst)], 'err': [rng.choice([0.001, 0.05, 0.3, 1.0]) for _ in range(nst)],
-                   'batches': [rng.choice([1, 4, 10, 50]) for _ in range(rng.randint(1, 3))], 'seed': rng.randrange(1 << 30)}
+                   'batches': [rng.choice([1, 4, 10, 50]) for _ in range(rng.randint(1, 3))], 'seed': rng.randrange(1 << 30),
+                   'joint': (i % 3 == 2)}
         for i in range(n):
             k = rng.random()
             if k < 0.25:
@@ -108,6 +109,13 @@ class C10(Prop):
             xs2 = list(case['xs'])
             random.Random(case['perm_seed']).shuffle(xs2)
             out['perm'] = f(xs2)
+            # the same result object evaluated twice (plain array and LnPDF container): the evidence is a function of the stored log-likelihoods, which it must leave alone
+            for tag, mk in (('arr', lambda: np.array(case['xs'], dtype=float)), ('lnpdf', lambda: pr.LnPDF(np.array([case['xs']], dtype=float)))):
+                obj = {'ln_pdf': mk()}
+                first = float(self.sampling.ln_bayesian_evidence(obj, case['N']))
+                second = float(self.sampling.ln_bayesian_evidence(obj, case['N']))
+                held = np.asarray(obj['ln_pdf']._ln_pdf if hasattr(obj['ln_pdf'], '_ln_pdf') else obj['ln_pdf'], dtype=float).flatten()
+                out['twice_' + tag] = [first, second, bool(np.array_equal(held, np.array(case['xs'], dtype=float)))]
             return out
         if k == 'modelprob':
             out = {'out': [float(v) for v in pr.model_probabilities(*case['es'])]}
@@ -158,6 +166,35 @@ class C10(Prop):
             data = {'PPolarity': {'Stations': st, 'Measured': np.matrix(case['pol']).T, 'Error': np.matrix(case['err']).T}}
             a_pol, e_pol, ipp = inv.polarity_matrix(data)
             rs = np.random.RandomState(case['seed'])
+            if case.get('joint'):
+                # a joint inversion of two events (the same picks seen by both, without relative amplitudes): tried counts and evidence of the joint samples
+                alg = mcs.IterationSample(number_samples=5, max_samples=10 ** 9, number_events=2)
+                alg.initialise()
+                allp, tried, reported = [], 0, 0
+                ev = lambda v: [v, v]
+                emp3, emp1 = [np.zeros((0, 1, 6)), np.zeros((0, 1, 6))], [np.zeros((0,)), np.zeros((0,))]
+                for nb in case['batches']:
+                    ms = []
+                    for _e in range(2):
+                        m = rs.randn(6, nb)
+                        ms.append(m / np.sqrt((m * m).sum(axis=0)))
+
+                    def joint(rz):
+                        import contextlib, io as _io
+                        with contextlib.redirect_stdout(_io.StringIO()):
+                            return inv.MultipleEventsForwardTask([m.copy() for m in ms], ev(a_pol), ev(e_pol), ev(False), ev(False), ev(False), ev(False), ev(False), ev(False), ev(False),
+                                                                 emp3, emp1, emp1, [[], []], False, ev(ipp), 2, return_zero=rz, relative=False, combine=True)()
+                    ref = joint(True)
+                    lp = ref['ln_pdf']
+                    allp.extend(float(v) for v in np.asarray(lp._ln_pdf if hasattr(lp, '_ln_pdf') else lp, dtype=float).flatten())
+                    r = joint(False)
+                    reported += int(r['n'])
+                    tried += nb
+                    alg.iterate(r)
+                ao, _t = alg.output(normalise=True, convert=False, discard=0)
+                return {'tried': tried, 'reported': reported, 'all_ln_p': allp,
+                        'lnbe': float(ao['ln_bayesian_evidence']) if 'ln_bayesian_evidence' in ao else None,
+                        'total_number_samples': int(ao.get('total_number_samples', -1))}
             alg = mcs.IterationSample(number_samples=5, max_samples=10 ** 9)
             alg.initialise()
             allp, tried, reported = [], 0, 0
@@ -247,6 +284,12 @@ class C10(Prop):
                 out.append(('lnbe-shift', 'shift by %r moved the evidence from %r to %r' % (case['shift'], g, impl['shifted']), None))
             if not close(g, impl['perm'], atol=1e-9):
                 out.append(('lnbe-perm', 'permuting the samples changed the evidence from %r to %r' % (g, impl['perm']), None))
+            for tag in ('twice_arr', 'twice_lnpdf'):
+                if tag in impl:
+                    f1, f2, same = impl[tag]
+                    if not ((f1 == f2 or close(f1, f2, atol=1e-9)) and same):
+                        out.append(('lnbe-repeat', 'evaluating the evidence of the same result twice gives %r then %r (stored log-likelihoods unchanged: %s)' % (f1, f2, same), None))
+                        break
         elif k == 'modelprob':
             es, ps = case['es'], impl['out']
             m = max(es)
